@@ -113,7 +113,7 @@ def cli_build():
     """The workspace's command-line programs, built from /repo's current tree into /verif/harness/target-cli."""
     env = dict(ENV)
     env["CARGO_TARGET_DIR"] = CLI_TARGET
-    cmd = ["cargo", "build", "--release", "--offline", "-p", "dictgen", "-p", "compile", "-p", "map", "-p", "tokenize", "-p", "train"]
+    cmd = ["cargo", "build", "--release", "--offline", "-p", "dictgen", "-p", "compile", "-p", "map", "-p", "tokenize", "-p", "train", "-p", "evaluate"]
     r = subprocess.run(cmd, cwd="/repo", env=env, timeout=3600, stdin=STDIN_NULL, stdout=subprocess.PIPE,
                        stderr=subprocess.PIPE, text=True)
     if r.returncode != 0:
@@ -204,7 +204,7 @@ def grep_forbidden(modules):
 # ---------------------------------------------------------------- streams
 
 def fixes_arg():
-    return "".join("1" if FIXES[k] else "0" for k in ["f1", "f2", "f3", "f4", "f5", "f2b", "f8", "f10", "f14", "f12"])
+    return "".join("1" if FIXES[k] else "0" for k in ["f1", "f2", "f3", "f4", "f5", "f2b", "f8", "f10", "f14", "f12", "f29"])
 
 
 def run_model_parallel(cases, model):
